@@ -11,7 +11,7 @@ use tokio::sync::RwLock;
 use crate::core::consensus::block::Block;
 use crate::core::consensus::blockchain::Blockchain;
 use crate::core::consensus::burnfee::BurnFee;
-use crate::core::consensus::golden_ticket::GoldenTicket;
+use crate::core::consensus::golden_ticket::{GoldenTicket, GOLDEN_TICKET_SIZE};
 use crate::core::consensus::transaction::{Transaction, TransactionType};
 use crate::core::consensus::wallet::Wallet;
 use crate::core::defs::SaitoUTXOSetKey;
@@ -80,6 +80,13 @@ impl Mempool {
         }
     }
     pub async fn add_golden_ticket(&mut self, golden_ticket: Transaction) {
+        if golden_ticket.data.len() != GOLDEN_TICKET_SIZE {
+            warn!(
+                "golden ticket has an invalid length : {}. not adding to mempool",
+                golden_ticket.data.len()
+            );
+            return;
+        }
         let gt = GoldenTicket::deserialize_from_net(&golden_ticket.data);
         debug!(
             "adding golden ticket : {:?} target : {:?} public_key : {:?}",
